@@ -12,20 +12,73 @@
 // depth, prune, protocol version, single branch) and, per connection, buffer
 // capacities, segmentation of every Write and an optional cut of either
 // direction after N bytes.
+//
+// Two transports (plan field Transport):
+//
+//   - "" (stream, stateful): simnet.Transport runs transport.UploadPack
+//     directly over two byte streams, one connection per operation.
+//   - "http" (smart HTTP, stateless RPC): the real plumbing/transport/http
+//     client (info/refs discovery, one POST per negotiation round, protocol v2
+//     ls-refs + fetch commands) talks through an http.Client whose RoundTripper
+//     is simnet.HTTP to the real backend.Backend.ServeHTTP, which opens a fresh
+//     filesystem.Storage on the server's disk for every request. Each
+//     request/response pair is a "connection" of the plan (Conns[k % len]), so
+//     capacity, segmentation and cuts apply per round and direction; further
+//     plan-drawn events replace a whole round by a transport error, by a
+//     4xx/5xx answer of an intermediary, or by a redirect. The client can have
+//     a long history of its own (Own commits on top of the shared prefix, or
+//     unrelated) so that negotiation takes several rounds.
+//
+// What is real: Remote.Fetch / git.Clone, transport.NegotiatePack, FetchPack,
+// internal/transport.FetchV2, the HTTP session (httpRequester/httpNegotiator),
+// net/http's Client (redirect policy), backend.Backend (routing, content
+// types, stateless UploadPack v0/v1/v2), pack encode/parse, both
+// storage/filesystem instances. Stubbed: the wire (simnet), both disks
+// (simfs), time (synctest). Of net/http's server only the request-body
+// contract is modelled (Close discards the rest, Read after Close fails), see
+// simnet/http.go. FetchRequest.Haves is sorted before the real HTTP session
+// sees it (go-git collects it from a map; under stateless RPC the order decides
+// the composition of every round).
+//
+// Oracle (unchanged by the transport): the call returns (a bubble deadlock
+// before it returns is a violation); without an injected fault it succeeds;
+// after success local refs = server refs through the refspec, prune and tag
+// modes hold, every local ref names complete history up to the shallow roots,
+// the shallow file equals git's boundary (clone/fetch into an empty client);
+// after a failure or cut every local ref still names complete history; a
+// follow-up fetch obeys the same rules; a failed operation leaves the shallow
+// file as it was (only the network fails here, and the file is written after
+// the pack is in); with Retry, the same fetch repeated
+// over a fault-free transport after an injected failure must succeed and
+// satisfy the success rules. Not judged: which tags are auto-followed, the
+// number of rounds or bytes (efficiency), goroutines left behind after the
+// call returned (probe).
+//
+// Signatures: C36|<op>|v<proto>|[http|]<buffers>|<clause>[|<fault class>];
+// second-fetch:/retry: prefixes for the later phases.
 package c36
 
 import (
+	"bytes"
 	"errors"
 	"fmt"
+	"log"
+	"net/url"
+	"path"
 	"sort"
 	"strings"
+	"sync"
 	"testing"
+	"testing/synctest"
+	"time"
 
 	git "github.com/go-git/go-git/v6"
+	"github.com/go-git/go-git/v6/backend"
 	"github.com/go-git/go-git/v6/config"
 	"github.com/go-git/go-git/v6/plumbing"
 	"github.com/go-git/go-git/v6/plumbing/cache"
 	"github.com/go-git/go-git/v6/plumbing/client"
+	"github.com/go-git/go-git/v6/plumbing/object"
 	"github.com/go-git/go-git/v6/plumbing/protocol"
 	"github.com/go-git/go-git/v6/storage"
 	"github.com/go-git/go-git/v6/storage/filesystem"
@@ -57,6 +110,18 @@ type Plan struct {
 	Conns     []simnet.ConnCfg `json:"conns"`
 	Faulty    bool             `json:"faulty"`
 	Second    *Second          `json:"second,omitempty"`
+	// Transport: "" = stateful stream (simnet.Transport), "http" = smart HTTP
+	// stateless RPC (simnet.HTTP under the real HTTP client and backend).
+	Transport string `json:"transport,omitempty"`
+	// HTTPFaults replace whole rounds (http only).
+	HTTPFaults []simnet.HTTPFault `json:"http_faults,omitempty"`
+	// Own: the client (fetch only) has this many commits of its own under
+	// refs/heads/mine, on top of the shared prefix (or unrelated, when the
+	// prior state is empty): haves the server does not know.
+	Own int `json:"own,omitempty"`
+	// Retry: after a fetch failed because of an injected fault, the same fetch
+	// is repeated over a transport without faults and must succeed.
+	Retry bool `json:"retry,omitempty"`
 }
 
 // Second is a follow-up fetch on the same client after the first operation
@@ -66,6 +131,13 @@ type Second struct {
 	Depth int `json:"depth"`
 	Only  int `json:"only"` // branch index to fetch, -1 = all branches
 	Grow  int `json:"grow"` // commits the server gains before it
+	// Merge > 0: after growing, the server's main gains one more commit that
+	// merges the old commit with index (Merge-1) mod Commits (history that may
+	// lie below a shallow client's boundary).
+	Merge int `json:"merge,omitempty"`
+	// Proto 1..3: the follow-up fetch speaks protocol v0..v2 instead of the
+	// first operation's version (0 = the same).
+	Proto int `json:"proto,omitempty"`
 }
 
 func genCfg(r *core.Rand) simnet.Cfg {
@@ -113,6 +185,12 @@ func genPlan(r *core.Rand, tier string) any {
 	}
 	if r.Chance(1, 3) {
 		p.Second = &Second{Depth: r.Pick2(0, 0, 1, 2, 3, 5), Only: r.Pick2(-1, 0, 1, 2), Grow: r.Pick2(0, 0, 1, 3)}
+		if r.Chance(1, 5) {
+			p.Second.Merge = r.Range(1, p.Commits)
+		}
+		if r.Chance(1, 6) {
+			p.Second.Proto = r.Range(1, 3)
+		}
 	}
 	if r.Chance(1, 5) {
 		p.Faulty = true
@@ -124,7 +202,94 @@ func genPlan(r *core.Rand, tier string) any {
 			p.Conns[k].C2S.CutAt = int64(r.Range(1, 600))
 		}
 	}
+	if p.Op == "fetch" && r.Chance(1, 8) {
+		// a commit or two of the client's own (few enough that all haves still fit
+		// into the first batch: over the stateful transport the order of the haves
+		// is go-git's map order)
+		p.Own = r.Range(1, 2)
+	}
+	if r.Chance(1, 3) {
+		genHTTP(r, p)
+	}
 	return p
+}
+
+// genHTTP turns a generated plan into a smart-HTTP one: a "connection" is now
+// one request/response round, so there are more of them; the request
+// direction is delivered whole in three plans out of five (go-git's stateless
+// upload-pack v0/v1 fails when the request body reaches it in pieces -- known
+// finding -- and would otherwise mask everything behind it); one fetch in
+// four has a long shared history and one in five a history of its own, so
+// that negotiation needs several rounds; a quarter of the plans inject a
+// fault into one round.
+func genHTTP(r *core.Rand, p *Plan) {
+	p.Transport = "http"
+	p.Conns, p.Faulty = nil, false
+	whole := r.Chance(3, 5)
+	nc := r.Range(2, 6)
+	for i := 0; i < nc; i++ {
+		c := simnet.ConnCfg{C2S: genCfg(r), S2C: genCfg(r)}
+		if whole {
+			c.C2S = simnet.Cfg{Cap: r.Pick2(0, 0, 65536)}
+		}
+		p.Conns = append(p.Conns, c)
+	}
+	if p.Op == "fetch" {
+		switch r.Intn(16) {
+		case 0, 1: // a long shared history: 17+ common haves, two rounds or more
+			if p.Prior == "empty" {
+				p.Prior = "prefix"
+			}
+			p.Commits = r.Range(18, 40)
+			p.ChainBias = r.Pick2(100, 100, 90)
+			p.PrefixLen = r.Range(17, p.Commits)
+			if r.Chance(3, 4) {
+				p.Depth = 0
+			}
+		case 2: // 49+ common haves: three rounds or more also under v0/v1
+			if p.Prior == "empty" {
+				p.Prior = "prefix"
+			}
+			p.Commits, p.Branches, p.ChainBias, p.Depth = r.Range(50, 56), 1, 100, 0
+			p.PrefixLen = r.Range(49, p.Commits-1)
+		case 3: // a deep shallow clone, then a follow-up: a shallow client with many haves
+			p.Prior, p.Own = "empty", 0
+			p.Commits, p.ChainBias, p.MergeRate = r.Range(28, 45), 100, r.Pick2(0, 0, 20)
+			p.Depth = r.Range(17, 26)
+			p.Second = &Second{Depth: r.Pick2(0, 0, p.Depth+3), Only: r.Pick2(-1, 0), Grow: r.Pick2(1, 2, 3)}
+			if r.Chance(2, 3) {
+				p.Second.Merge = r.Range(1, p.Commits-p.Depth) // below the boundary of a chain
+			}
+			if r.Bool() {
+				// only protocol v2 leaves the history below the boundary out of the
+				// pack (the v0/v1 server sends all of it): a truly shallow client
+				// that then speaks v0/v1/v2
+				p.Proto = 2
+				p.Second.Proto = r.Range(1, 3)
+			}
+		}
+	}
+	if p.Op == "fetch" && r.Chance(1, 5) {
+		p.Own = r.Pick2(1, 3, 17, 20, 40)
+	}
+	if r.Chance(1, 4) {
+		p.Faulty = true
+		p.Retry = r.Bool()
+		k := r.Intn(len(p.Conns))
+		switch r.Intn(6) {
+		case 0, 1:
+			p.Conns[k].S2C.CutAt = int64(r.Range(1, 3000))
+			p.Conns[k].S2C.CutKind = r.Intn(2)
+		case 2:
+			p.Conns[k].C2S.CutAt = int64(r.Range(1, 600))
+		case 3:
+			p.HTTPFaults = []simnet.HTTPFault{{Round: r.Intn(6), Kind: "error"}}
+		case 4:
+			p.HTTPFaults = []simnet.HTTPFault{{Round: r.Intn(6), Kind: "status", Status: r.Pick2(400, 401, 403, 404, 429, 500, 502, 503)}}
+		default:
+			p.HTTPFaults = []simnet.HTTPFault{{Round: r.Pick2(0, 0, 0, 1, 2, 3), Kind: "redirect", Status: r.Pick2(301, 302, 307, 308)}}
+		}
+	}
 }
 
 func dagCfg(p *Plan, commits int) gen.DAGCfg {
@@ -144,6 +309,73 @@ func capClass(p *Plan) string {
 	return "large-buffers"
 }
 
+// lockedBuf collects the server's error log (backend.Backend.ErrorLog).
+type lockedBuf struct {
+	mu sync.Mutex
+	b  bytes.Buffer
+}
+
+func (l *lockedBuf) Write(p []byte) (int, error) {
+	l.mu.Lock()
+	defer l.mu.Unlock()
+	if l.b.Len() < 1<<16 {
+		l.b.Write(p)
+	}
+	return len(p), nil
+}
+
+func (l *lockedBuf) String() string {
+	l.mu.Lock()
+	defer l.mu.Unlock()
+	return l.b.String()
+}
+
+func putObj(st storage.Storer, o interface {
+	Encode(plumbing.EncodedObject) error
+}) (plumbing.Hash, error) {
+	eo := st.NewEncodedObject()
+	if err := o.Encode(eo); err != nil {
+		return plumbing.ZeroHash, err
+	}
+	return st.SetEncodedObject(eo)
+}
+
+// cloneDAG copies a model far enough that commits, objects and refs can be
+// added to the copy.
+func cloneDAG(d *gen.DAG) *gen.DAG {
+	c := &gen.DAG{Commits: append([]gen.DAGCommit(nil), d.Commits...), Tags: d.Tags, Head: d.Head, Refs: map[string]plumbing.Hash{}, Objects: map[plumbing.Hash]string{}}
+	for k, v := range d.Refs {
+		c.Refs[k] = v
+	}
+	for k, v := range d.Objects {
+		c.Objects[k] = v
+	}
+	return c
+}
+
+// stripFaults returns the connection configurations without cuts.
+func stripFaults(cs []simnet.ConnCfg) []simnet.ConnCfg {
+	out := append([]simnet.ConnCfg(nil), cs...)
+	for i := range out {
+		out[i].C2S.CutAt, out[i].S2C.CutAt = 0, 0
+	}
+	return out
+}
+
+// serverMechanism names what the server's error log says about a 5xx (stable,
+// bounded set): the mechanism part of an unexpected-error signature.
+func serverMechanism(log string) string {
+	switch {
+	case strings.Contains(log, "invalid Read on closed Body"):
+		return "server-read-after-body-close"
+	case strings.Contains(log, "getting wanted object") && strings.Contains(log, "object not found"):
+		return "server-walks-unknown-have"
+	}
+	return ""
+}
+
+const mineRef = "refs/heads/mine"
+
 func execPlan(t *testing.T, pa any) (out core.Outcome) {
 	p := pa.(*Plan)
 	hooks.Deterministic(true)
@@ -159,11 +391,23 @@ func execPlan(t *testing.T, pa any) (out core.Outcome) {
 	if p.PrefixLen > p.Commits {
 		p.PrefixLen = p.Commits
 	}
+	if p.Own < 0 {
+		p.Own = 0
+	}
+	if p.Own > 120 {
+		p.Own = 120
+	}
+	isHTTP := p.Transport == "http"
 	var trace []string
 	logf := func(f string, a ...any) { trace = append(trace, fmt.Sprintf(f, a...)) }
 	var tr *simnet.Transport
+	var ht *simnet.HTTP
+	var srvLog *lockedBuf
 	opReturned := false
 	cfgName := fmt.Sprintf("%s|v%d|%s", p.Op, mod(p.Proto, 3), capClass(p))
+	if isHTTP {
+		cfgName = fmt.Sprintf("%s|v%d|http|%s", p.Op, mod(p.Proto, 3), capClass(p))
+	}
 
 	panicked := sched.Bubble(t, func() {
 		srvDisk, cliDisk := simfs.NewDisk(), simfs.NewDisk()
@@ -179,11 +423,131 @@ func execPlan(t *testing.T, pa any) (out core.Outcome) {
 		}
 		_ = srvSt.Close()
 
-		tr = &simnet.Transport{Conns: p.Conns, Open: func(path string) (storage.Storer, error) {
-			return filesystem.NewStorage(srvDisk.FS(path, "server"), cache.NewObjectLRUDefault()), nil
-		}}
-		copts := []client.Option{client.WithTransport("sim", tr)}
-		const url = "sim://server/srv/repo.git"
+		// ---- the network ----
+		var copts []client.Option
+		url_ := "sim://server/srv/repo.git"
+		newNet := func(conns []simnet.ConnCfg, faults []simnet.HTTPFault) {
+			if !isHTTP {
+				tr = &simnet.Transport{Conns: conns, Open: func(path string) (storage.Storer, error) {
+					return filesystem.NewStorage(srvDisk.FS(path, "server"), cache.NewObjectLRUDefault()), nil
+				}}
+				copts = []client.Option{client.WithTransport("sim", tr)}
+				return
+			}
+			// a server process per request: a fresh Storage on the server's disk
+			be := backend.New(simnet.LoaderFunc(func(u *url.URL) (storage.Storer, error) {
+				return filesystem.NewStorage(srvDisk.FS(path.Clean("/"+u.Path), "server"), cache.NewObjectLRUDefault()), nil
+			}))
+			srvLog = &lockedBuf{}
+			be.ErrorLog = log.New(srvLog, "", 0)
+			ht = &simnet.HTTP{Handler: be, Conns: conns, Faults: faults}
+			copts = []client.Option{client.WithTransport("http", simnet.NewHTTPTransport(ht, nil))}
+			url_ = "http://server/srv/repo.git"
+		}
+		newNet(p.Conns, p.HTTPFaults)
+		totals := func() simnet.Stats {
+			// the server side may still be writing after the client has all it
+			// wanted (or has given up): let everything else run until it has
+			// returned or is blocked for good, so that the byte counts are final
+			synctest.Wait()
+			if isHTTP {
+				return ht.Totals()
+			}
+			return tr.Totals()
+		}
+		// serverErrors: what the server side said (HTTP: the backend's error log;
+		// stream: the errors the server commands returned). Only used to name the
+		// mechanism of a failure nothing injected explains.
+		serverErrors := func() string {
+			if isHTTP {
+				return srvLog.String()
+			}
+			synctest.Wait() // every server command has returned or is blocked for good
+			var sb strings.Builder
+			for _, e := range tr.ServerErrors() {
+				if e != nil {
+					sb.WriteString(e.Error() + "\n")
+				}
+			}
+			return sb.String()
+		}
+		unclosed := 0
+		shutdown := func() {
+			if ht != nil {
+				unclosed += ht.Shutdown()
+			}
+		}
+		defer func() {
+			shutdown()
+			out.ProbeN("http-response-body-left-open", unclosed)
+		}()
+		// httpPhase summarises the rounds from index `from` on: logs them, counts
+		// faults, and reports whether an injected fault excuses a failure.
+		type phase struct {
+			excused, panicked, lsRefs, fetchCmd, redirected, aliasedPost bool
+			negRounds, postCut, laterCut                                 int
+		}
+		httpPhase := func(from int) (ph phase) {
+			if !isHTTP {
+				return ph
+			}
+			for _, r := range ht.RoundsFrom(from) {
+				logf("  %s", r.Describe())
+				post := r.Method == "POST"
+				switch r.Fault {
+				case "error":
+					out.Faults["http-round-error"]++
+					ph.excused = true
+				case "status":
+					out.Faults["http-status"]++
+					ph.excused = true
+				case "redirect":
+					out.Faults["http-redirect"]++
+					if post {
+						// git's (and go-git's) default policy follows redirects of the
+						// discovery request only
+						ph.excused = true
+					} else {
+						ph.redirected = true
+					}
+				}
+				if r.Panic != "" {
+					ph.panicked = true
+				}
+				if r.Lost || r.RespCut() {
+					out.Faults["stream-cut"]++
+					ph.excused = true
+					if post {
+						ph.postCut++
+						if r.K-from >= 2 {
+							ph.laterCut++
+						}
+					}
+				}
+				if post && r.Fault == "" {
+					if r.Aliased {
+						ph.aliasedPost = true
+					}
+					switch r.Cmd {
+					case "ls-refs":
+						ph.lsRefs = true
+					case "fetch":
+						ph.fetchCmd = true
+						ph.negRounds++
+					default:
+						ph.negRounds++
+					}
+				}
+			}
+			return ph
+		}
+		out.Faults = map[string]int{}
+		defer func() {
+			if len(out.Faults) == 0 {
+				out.Faults = nil
+			}
+		}()
+
 		cliSt := filesystem.NewStorage(cliDisk.FS("/cli/repo.git", "client"), cache.NewObjectLRUDefault())
 		tagMode := []plumbing.TagMode{plumbing.TagFollowing, plumbing.AllTags, plumbing.NoTags}[mod(p.TagMode, 3)]
 		proto := []protocol.Version{protocol.V0, protocol.V1, protocol.V2}[mod(p.Proto, 3)]
@@ -193,10 +557,15 @@ func execPlan(t *testing.T, pa any) (out core.Outcome) {
 		staleRef := plumbing.ReferenceName("refs/remotes/origin/gone")
 		hadStale := false
 		var priorTip plumbing.Hash
+		var own []plumbing.Hash // the client's own commits (refs/heads/mine), oldest first
+		var ownTree plumbing.Hash
+		doFetch := func() error {
+			return repo.Fetch(&git.FetchOptions{RemoteName: "origin", ClientOptions: copts, Depth: p.Depth, Tags: tagMode, Prune: p.Prune})
+		}
 		if p.Op == "clone" {
 			// protocol version for clone comes from the default config: set it globally through a pre-initialised repo is not
 			// possible, so clone runs with go-git's default protocol; record that in the config name
-			o := &git.CloneOptions{URL: url, ClientOptions: copts, Depth: p.Depth, Tags: tagMode, Bare: true, SingleBranch: p.Single}
+			o := &git.CloneOptions{URL: url_, ClientOptions: copts, Depth: p.Depth, Tags: tagMode, Bare: true, SingleBranch: p.Single}
 			if p.Single {
 				o.ReferenceName = "refs/heads/main"
 			}
@@ -214,44 +583,111 @@ func execPlan(t *testing.T, pa any) (out core.Outcome) {
 					return
 				}
 				priorTip = pre.Commits[len(pre.Commits)-1].Hash
+				ownTree = pre.Commits[len(pre.Commits)-1].Tree
 				_ = cliSt.SetReference(plumbing.NewHashReference("refs/remotes/origin/main", priorTip))
 				if p.Prior == "prefix+stale" {
 					_ = cliSt.SetReference(plumbing.NewHashReference(staleRef, priorTip))
 					hadStale = true
 				}
 			}
+			if p.Own > 0 {
+				if ownTree.IsZero() {
+					if ownTree, err = putObj(cliSt, &object.Tree{}); err != nil {
+						out.Inconclusive = "setup-failed"
+						return
+					}
+				}
+				parent := priorTip
+				for i := 0; i < p.Own; i++ {
+					sig := object.Signature{Name: "Own", Email: "own@example.com", When: time.Unix(1_550_000_000+int64(i)*50, 0).UTC()}
+					c := &object.Commit{Author: sig, Committer: sig, Message: fmt.Sprintf("own %d of %d\n", i, p.Seed), TreeHash: ownTree}
+					if !parent.IsZero() {
+						c.ParentHashes = []plumbing.Hash{parent}
+					}
+					h, err := putObj(cliSt, c)
+					if err != nil {
+						out.Inconclusive = "setup-failed"
+						return
+					}
+					own = append(own, h)
+					parent = h
+				}
+				_ = cliSt.SetReference(plumbing.NewHashReference(mineRef, parent))
+			}
 			cfg, _ := repo.Config()
 			cfg.Protocol.Version = proto
-			cfg.Remotes["origin"] = &config.RemoteConfig{Name: "origin", URLs: []string{url}, Fetch: []config.RefSpec{"+refs/heads/*:refs/remotes/origin/*"}}
+			cfg.Remotes["origin"] = &config.RemoteConfig{Name: "origin", URLs: []string{url_}, Fetch: []config.RefSpec{"+refs/heads/*:refs/remotes/origin/*"}}
 			if err := repo.SetConfig(cfg); err != nil {
 				out.Inconclusive = "setup-failed"
 				return
 			}
-			opErr = repo.Fetch(&git.FetchOptions{RemoteName: "origin", ClientOptions: copts, Depth: p.Depth, Tags: tagMode, Prune: p.Prune})
+			opErr = doFetch()
 		}
 		opReturned = true
-		st := tr.Totals()
+		st := totals()
 		// (how often a writer had to wait for room depends on goroutine timing and stays out of the event log)
-		logf("%s -> %v (conns %d, bytes %d, segments %d, split writes %d, short reads %d, cut %v)", cfgName, errStr(opErr), len(tr.Streams)/2, st.Bytes, st.Segments, st.SplitWrites, st.ShortReads, st.Cut)
+		nconns := 0
+		if isHTTP {
+			nconns = ht.NRounds()
+		} else {
+			nconns = len(tr.Streams) / 2
+		}
+		logf("%s -> %v (conns %d, bytes %d, segments %d, split writes %d, short reads %d, cut %v)", cfgName, errStr(opErr), nconns, st.Bytes, st.Segments, st.SplitWrites, st.ShortReads, st.Cut)
 		out.ProbeN("split-writes", st.SplitWrites)
 		out.ProbeN("short-reads", st.ShortReads)
 		out.ProbeN("writer-blocked-on-full-buffer", st.Blocked)
-		if st.Cut {
-			out.Faults = map[string]int{"stream-cut": 1}
+		ph := httpPhase(0)
+		excused := st.Cut || ph.excused
+		if st.Cut && !isHTTP {
+			out.Faults["stream-cut"] = 1
 		}
 		upToDate := errors.Is(opErr, git.NoErrAlreadyUpToDate)
 		ok := opErr == nil || upToDate
+		if ph.panicked {
+			out.Fail("C36|"+cfgName+"|http-server-panic", "the server's HTTP handler panicked during %s (client got: %v); server log: %.200s", p.Op, opErr, srvLog.String())
+		}
 		if !ok {
-			if st.Cut {
+			if excused {
 				out.Probe("failed-after-cut")
+				if isHTTP {
+					out.Probe("http-failed-after-fault")
+				}
 			} else {
 				out.Probe("failed-without-fault:" + short(opErr))
-				out.Fail("C36|"+cfgName+"|unexpected-error|no-fault", "%s failed although nothing was cut: %v", p.Op, opErr)
+				if mech := serverMechanism(serverErrors()); mech != "" {
+					out.Fail("C36|"+cfgName+"|"+mech+"|unexpected-error|no-fault", "%s failed although no fault was injected: %v; server: %.300s", p.Op, opErr, serverErrors())
+				} else {
+					out.Fail("C36|"+cfgName+"|unexpected-error|no-fault", "%s failed although nothing was cut: %v", p.Op, opErr)
+				}
 			}
 		} else {
 			out.Probe("ok:" + p.Op)
-			if st.Cut {
+			if excused {
 				out.Probe("ok-despite-cut")
+			}
+		}
+		if isHTTP {
+			out.ProbeN("http-round-cut", ph.postCut)
+			out.ProbeN("http-round-cut:round>=2", ph.laterCut)
+			if ok {
+				out.Probe("http-ok:" + p.Op)
+				if ph.negRounds >= 2 {
+					out.Probe("http-negotiation-rounds>=2")
+					out.Probe(fmt.Sprintf("http-negotiation-rounds>=2:v%d", mod(p.Proto, 3)))
+				}
+				if ph.negRounds >= 3 {
+					out.Probe("http-negotiation-rounds>=3")
+					out.Probe(fmt.Sprintf("http-negotiation-rounds>=3:v%d", mod(p.Proto, 3)))
+				}
+				if ph.lsRefs && ph.fetchCmd {
+					out.Probe("http-v2-ls-refs+fetch")
+				}
+				if ph.redirected && ph.aliasedPost {
+					out.Probe("http-discovery-redirect-followed")
+				}
+				if len(own) > 0 && ph.negRounds >= 1 {
+					out.Probe("http-fetch-with-own-history")
+				}
 			}
 		}
 		if repo == nil {
@@ -259,51 +695,122 @@ func execPlan(t *testing.T, pa any) (out core.Outcome) {
 			return
 		}
 		// ---- postconditions on the client image, read with a fresh Storage ----
-		vst := filesystem.NewStorage(cliDisk.Clone().FS("/cli/repo.git", "verify"), cache.NewObjectLRUDefault())
-		defer vst.Close()
-		have := func(h plumbing.Hash) bool { return vst.HasEncodedObject(h) == nil }
-		shallow, _ := vst.Shallow()
-		stop := map[plumbing.Hash]bool{}
-		for _, h := range shallow {
-			stop[h] = true
-		}
-		// every local ref must name a present, complete history (also after failures and cuts)
-		it, err := vst.IterReferences()
-		if err != nil {
-			out.Fail("C36|"+cfgName+"|client-refs-unlistable", "client IterReferences after %s: %v", p.Op, err)
-			return
-		}
-		local := map[string]plumbing.Hash{}
-		_ = it.ForEach(func(r *plumbing.Reference) error {
-			if r.Type() == plumbing.HashReference {
-				local[r.Name().String()] = r.Hash()
+		var vst *filesystem.Storage
+		defer func() {
+			if vst != nil {
+				vst.Close()
 			}
-			return nil
-		})
-		names := make([]string, 0, len(local))
-		for n := range local {
-			names = append(names, n)
-		}
-		sort.Strings(names)
-		for _, n := range names {
-			h := local[n]
-			if _, known := dag.Objects[h]; !known {
-				out.Fail("C36|"+cfgName+"|ref-to-unknown-object", "client ref %s = %s which the server never had", n, h)
-				return
+		}()
+		var shallow []plumbing.Hash
+		var stop map[plumbing.Hash]bool
+		var local map[string]plumbing.Hash
+		var names []string
+		// inspect reads the client image and checks that every local ref names a
+		// present, complete history (also after failures and cuts).
+		inspect := func(pre string, ok bool) bool {
+			if vst != nil {
+				vst.Close()
 			}
-			for _, o := range sortedClosure(dag, h, stop) {
-				if !have(o) {
-					why := "after-success"
-					if !ok {
-						why = "after-failure"
-					}
-					out.Fail(fmt.Sprintf("C36|%s|missing-object:%s|%s", cfgName, dag.Objects[o], why), "client ref %s = %s but object %s (%s) reachable from it is missing (shallow roots: %d)", n, h, o, dag.Objects[o], len(shallow))
-					return
+			vst = filesystem.NewStorage(cliDisk.Clone().FS("/cli/repo.git", "verify"), cache.NewObjectLRUDefault())
+			have := func(h plumbing.Hash) bool { return vst.HasEncodedObject(h) == nil }
+			shallow, _ = vst.Shallow()
+			stop = map[plumbing.Hash]bool{}
+			for _, h := range shallow {
+				stop[h] = true
+			}
+			it, err := vst.IterReferences()
+			if err != nil {
+				out.Fail("C36|"+cfgName+"|"+pre+"client-refs-unlistable", "client IterReferences after %s: %v", p.Op, err)
+				return false
+			}
+			local = map[string]plumbing.Hash{}
+			_ = it.ForEach(func(r *plumbing.Reference) error {
+				if r.Type() == plumbing.HashReference {
+					local[r.Name().String()] = r.Hash()
+				}
+				return nil
+			})
+			names = make([]string, 0, len(local))
+			for n := range local {
+				names = append(names, n)
+			}
+			sort.Strings(names)
+			why := "after-success"
+			if !ok {
+				why = "after-failure"
+				// the shallow file is written once the pack is in (only the network
+				// fails here): a failed operation leaves it as it was -- empty, no
+				// generated client starts out shallow
+				if len(shallow) > 0 {
+					out.Fail("C36|"+cfgName+"|"+pre+"shallow-file-changed|after-failure", "%s failed (%v) but left %d shallow roots in a client that had none", p.Op, opErr, len(shallow))
+					return false
 				}
 			}
+			for _, n := range names {
+				h := local[n]
+				if n == mineRef && len(own) > 0 && h == own[len(own)-1] {
+					// the client's own branch: its own commits, then the shared prefix
+					for _, o := range append([]plumbing.Hash{ownTree}, own...) {
+						if !have(o) {
+							out.Fail(fmt.Sprintf("C36|%s|%smissing-object:own|%s", cfgName, pre, why), "client ref %s: its own object %s is gone", n, o)
+							return false
+						}
+					}
+					if priorTip.IsZero() {
+						continue
+					}
+					h = priorTip
+				}
+				if _, known := dag.Objects[h]; !known {
+					out.Fail("C36|"+cfgName+"|"+pre+"ref-to-unknown-object", "client ref %s = %s which the server never had", n, h)
+					return false
+				}
+				for _, o := range sortedClosure(dag, h, stop) {
+					if !have(o) {
+						out.Fail(fmt.Sprintf("C36|%s|%smissing-object:%s|%s", cfgName, pre, dag.Objects[o], why), "client ref %s = %s but object %s (%s) reachable from it is missing (shallow roots: %d)", n, h, o, dag.Objects[o], len(shallow))
+						return false
+					}
+				}
+			}
+			return true
 		}
-		if !ok {
+		if !inspect("", ok) {
 			return
+		}
+		pre := "" // signature prefix of the phase the success rules are applied to
+		if !ok {
+			if !(p.Retry && excused && p.Op == "fetch") || out.Signature != "" {
+				return
+			}
+			// ---- retry: the same fetch over a transport without faults ----
+			shutdown()
+			newNet(stripFaults(p.Conns), nil)
+			opReturned = false
+			opErr = doFetch()
+			opReturned = true
+			upToDate = errors.Is(opErr, git.NoErrAlreadyUpToDate)
+			ok = opErr == nil || upToDate
+			logf("retry without faults -> %v", errStr(opErr))
+			rph := httpPhase(0)
+			pre = "retry|"
+			if rph.panicked {
+				out.Fail("C36|"+cfgName+"|retry|http-server-panic", "the server's HTTP handler panicked during the retry; server log: %.200s", srvLog.String())
+			}
+			if !ok {
+				mech := serverMechanism(serverErrors())
+				if mech != "" {
+					mech += "|"
+				}
+				out.Fail("C36|"+cfgName+"|retry|"+mech+"unexpected-error|after-fault", "the fetch failed because of an injected fault (%v cut); repeated over a fault-free transport it fails again: %v; server: %.300s", st.Cut, opErr, serverErrors())
+				return
+			}
+			out.Probe("retry-ok")
+			if isHTTP {
+				out.Probe("http-retry-ok")
+			}
+			if !inspect(pre, ok) {
+				return
+			}
 		}
 		// ---- success: refs equal the server's refs mapped through the refspec ----
 		wantBranches := map[string]plumbing.Hash{}
@@ -322,7 +829,7 @@ func execPlan(t *testing.T, pa any) (out core.Outcome) {
 		sort.Strings(bn)
 		for _, n := range bn {
 			if got, okk := local[n]; !okk || got != wantBranches[n] {
-				out.Fail("C36|"+cfgName+"|branch-ref-wrong", "after a successful %s the client's %s = %v, server has %s", p.Op, n, got, wantBranches[n])
+				out.Fail("C36|"+cfgName+"|"+pre+"branch-ref-wrong", "after a successful %s the client's %s = %v, server has %s", p.Op, n, got, wantBranches[n])
 				return
 			}
 		}
@@ -332,14 +839,18 @@ func execPlan(t *testing.T, pa any) (out core.Outcome) {
 					if n == string(staleRef) && hadStale && !p.Prune {
 						continue // not pruned: stays
 					}
-					out.Fail("C36|"+cfgName+"|unexpected-remote-ref", "client has %s which no server branch maps to (prune=%v)", n, p.Prune)
+					out.Fail("C36|"+cfgName+"|"+pre+"unexpected-remote-ref", "client has %s which no server branch maps to (prune=%v)", n, p.Prune)
 					return
 				}
 			}
 		}
+		if len(own) > 0 && local[mineRef] != own[len(own)-1] {
+			out.Fail("C36|"+cfgName+"|"+pre+"local-branch-changed", "the client's own %s was %s before the %s and is %v now", mineRef, own[len(own)-1], p.Op, local[mineRef])
+			return
+		}
 		if hadStale && p.Prune {
 			if _, still := local[string(staleRef)]; still {
-				out.Fail("C36|"+cfgName+"|stale-ref-not-pruned", "Prune=true but %s is still there", staleRef)
+				out.Fail("C36|"+cfgName+"|"+pre+"stale-ref-not-pruned", "Prune=true but %s is still there", staleRef)
 				return
 			}
 			out.Probe("pruned")
@@ -356,23 +867,23 @@ func execPlan(t *testing.T, pa any) (out core.Outcome) {
 					break
 				}
 				if !has || got != h {
-					out.Fail("C36|"+cfgName+"|tag-missing|all-tags", "AllTags: client's %s = %v, server has %s", n, got, h)
+					out.Fail("C36|"+cfgName+"|"+pre+"tag-missing|all-tags", "AllTags: client's %s = %v, server has %s", n, got, h)
 					return
 				}
 			case plumbing.NoTags:
 				if has {
-					out.Fail("C36|"+cfgName+"|tag-created|no-tags", "NoTags: client nevertheless has %s", n)
+					out.Fail("C36|"+cfgName+"|"+pre+"tag-created|no-tags", "NoTags: client nevertheless has %s", n)
 					return
 				}
 			default:
 				if has && got != h {
-					out.Fail("C36|"+cfgName+"|tag-wrong|following", "client's %s = %s, server has %s", n, got, h)
+					out.Fail("C36|"+cfgName+"|"+pre+"tag-wrong|following", "client's %s = %s, server has %s", n, got, h)
 					return
 				}
 			}
 		}
 		// shallow boundary
-		if p.Depth > 0 && p.Prior == "empty" && !upToDate && !(p.Op == "clone" && p.Single) {
+		if p.Depth > 0 && p.Prior == "empty" && len(own) == 0 && !upToDate && pre == "" && !(p.Op == "clone" && p.Single) {
 			var tips []plumbing.Hash
 			for _, n := range bn {
 				tips = append(tips, wantBranches[n])
@@ -393,7 +904,13 @@ func execPlan(t *testing.T, pa any) (out core.Outcome) {
 			}
 			out.Probe("shallow-fetch")
 		} else if p.Depth == 0 && len(shallow) > 0 {
-			out.Fail("C36|"+cfgName+"|unexpected-shallow", "full fetch left %d shallow roots", len(shallow))
+			out.Fail("C36|"+cfgName+"|"+pre+"unexpected-shallow", "full fetch left %d shallow roots", len(shallow))
+		}
+		if isHTTP && p.Depth > 0 && len(shallow) > 0 && !upToDate {
+			out.Probe("http-shallow-over-stateless")
+			if ph.negRounds >= 2 && pre == "" {
+				out.Probe("http-shallow-over-stateless:multi-round")
+			}
 		}
 		if p.Prior != "empty" && !upToDate {
 			out.Probe("incremental-fetch")
@@ -424,6 +941,31 @@ func execPlan(t *testing.T, pa any) (out core.Outcome) {
 			_ = gst.Close()
 			dag2 = d2
 		}
+		if s2.Merge > 0 {
+			// one more commit on main: a merge of an old commit
+			gst := filesystem.NewStorage(srvDisk.FS("/srv/repo.git", "srv-setup"), cache.NewObjectLRUDefault())
+			d3 := cloneDAG(dag2)
+			ti := d3.CommitIndex(d3.Refs["refs/heads/main"])
+			k := mod(s2.Merge-1, len(dag.Commits))
+			if ti < 0 {
+				out.Inconclusive = "setup-failed"
+				return
+			}
+			when := int64(1_500_000_000 + len(d3.Commits)*100)
+			sig := object.Signature{Name: "Gen", Email: "gen@example.com", When: time.Unix(when, 0).UTC()}
+			mc := &object.Commit{Author: sig, Committer: sig, Message: "merge of an old commit\n", TreeHash: d3.Commits[ti].Tree,
+				ParentHashes: []plumbing.Hash{d3.Commits[ti].Hash, d3.Commits[k].Hash}}
+			mh, err := putObj(gst, mc)
+			if err != nil || gst.SetReference(plumbing.NewHashReference("refs/heads/main", mh)) != nil {
+				out.Inconclusive = "setup-failed"
+				return
+			}
+			_ = gst.Close()
+			d3.Commits = append(d3.Commits, gen.DAGCommit{Hash: mh, Parents: []int{ti, k}, Tree: d3.Commits[ti].Tree, Blobs: d3.Commits[ti].Blobs, When: when})
+			d3.Objects[mh] = "commit"
+			d3.Refs["refs/heads/main"] = mh
+			dag2 = d3
+		}
 		var heads []string
 		for n := range dag2.Refs {
 			if strings.HasPrefix(n, "refs/heads/") {
@@ -440,17 +982,58 @@ func execPlan(t *testing.T, pa any) (out core.Outcome) {
 		} else {
 			specs = []config.RefSpec{"+refs/heads/*:refs/remotes/origin/*"}
 		}
-		shallowBefore := len(shallow)
-		err2 := repo.Fetch(&git.FetchOptions{RemoteName: "origin", ClientOptions: copts, Depth: s2.Depth, Tags: plumbing.NoTags, RefSpecs: specs})
-		ok2 := err2 == nil || errors.Is(err2, git.NoErrAlreadyUpToDate)
-		st2 := tr.Totals()
-		logf("second fetch %v depth %d -> %v (cut %v)", specs, s2.Depth, errStr(err2), st2.Cut)
-		if st2.Cut && !st.Cut {
-			out.Faults = map[string]int{"stream-cut": 1}
+		if s2.Proto >= 1 && s2.Proto <= 3 {
+			cfg, err := repo.Config()
+			if err == nil {
+				cfg.Protocol.Version = []protocol.Version{protocol.V0, protocol.V1, protocol.V2}[s2.Proto-1]
+				err = repo.SetConfig(cfg)
+			}
+			if err != nil {
+				out.Inconclusive = "setup-failed"
+				return
+			}
 		}
-		if !ok2 && !st2.Cut {
-			out.Fail("C36|"+cfgName+"|second-fetch|unexpected-error|no-fault", "follow-up fetch of %v (depth %d, %d shallow roots before) failed although nothing was cut: %v", specs, s2.Depth, shallowBefore, err2)
+		shallowBefore := len(shallow)
+		cutBefore := totals().Cut
+		roundsBefore := 0
+		if isHTTP {
+			roundsBefore = ht.NRounds()
+		}
+		opReturned = false
+		err2 := repo.Fetch(&git.FetchOptions{RemoteName: "origin", ClientOptions: copts, Depth: s2.Depth, Tags: plumbing.NoTags, RefSpecs: specs})
+		opReturned = true
+		ok2 := err2 == nil || errors.Is(err2, git.NoErrAlreadyUpToDate)
+		st2 := totals()
+		if s2.Proto >= 1 && s2.Proto <= 3 {
+			logf("second fetch %v depth %d protocol v%d -> %v (cut %v)", specs, s2.Depth, s2.Proto-1, errStr(err2), st2.Cut)
+		} else {
+			logf("second fetch %v depth %d -> %v (cut %v)", specs, s2.Depth, errStr(err2), st2.Cut)
+		}
+		ph2 := httpPhase(roundsBefore)
+		if st2.Cut && !cutBefore && !isHTTP {
+			out.Faults["stream-cut"] = 1
+		}
+		if ph2.panicked {
+			out.Fail("C36|"+cfgName+"|second-fetch|http-server-panic", "the server's HTTP handler panicked during the follow-up fetch; server log: %.200s", srvLog.String())
 			return
+		}
+		excused2 := st2.Cut || ph2.excused
+		if !ok2 && !excused2 {
+			mech := serverMechanism(serverErrors())
+			if mech != "" {
+				mech += "|"
+			}
+			out.Fail("C36|"+cfgName+"|second-fetch|"+mech+"unexpected-error|no-fault", "follow-up fetch of %v (depth %d, %d shallow roots before) failed although nothing was cut: %v; server: %.300s", specs, s2.Depth, shallowBefore, err2, serverErrors())
+			return
+		}
+		if isHTTP {
+			out.ProbeN("http-round-cut", ph2.postCut)
+			if ok2 && shallowBefore > 0 && ph2.negRounds >= 1 {
+				out.Probe("http-shallow-client-follow-up")
+				if ph2.negRounds >= 2 {
+					out.Probe("http-shallow-client-follow-up:rounds>=2")
+				}
+			}
 		}
 		v2 := filesystem.NewStorage(cliDisk.Clone().FS("/cli/repo.git", "verify2"), cache.NewObjectLRUDefault())
 		defer v2.Close()
@@ -479,6 +1062,14 @@ func execPlan(t *testing.T, pa any) (out core.Outcome) {
 		why := "after-success"
 		if !ok2 {
 			why = "after-failure"
+			before := map[plumbing.Hash]bool{}
+			for _, h := range shallow {
+				before[h] = true
+			}
+			if !sameSet(before, stop2) {
+				out.Fail("C36|"+cfgName+"|second-fetch|shallow-file-changed|after-failure", "the follow-up fetch failed (%v) but changed the shallow file: %d roots before, %d after", err2, len(shallow), len(shallow2))
+				return
+			}
 		}
 		kind := "all-branches"
 		if s2.Only >= 0 {
@@ -487,8 +1078,30 @@ func execPlan(t *testing.T, pa any) (out core.Outcome) {
 		if shallowBefore > 0 {
 			kind += "+shallow-client"
 		}
+		// sigKind: in signatures a follow-up that switches the protocol version
+		// says so (and whether it deepens a shallow client): a different
+		// mechanism from the same-version follow-ups
+		sigKind := kind
+		if s2.Proto >= 1 && s2.Proto <= 3 {
+			if shallowBefore > 0 && s2.Depth > 0 {
+				sigKind += "+deepen"
+			}
+			sigKind += fmt.Sprintf("+as-v%d", s2.Proto-1)
+		}
 		for _, n := range names2 {
 			h := local2[n]
+			if n == mineRef && len(own) > 0 && h == own[len(own)-1] {
+				for _, o := range append([]plumbing.Hash{ownTree}, own...) {
+					if v2.HasEncodedObject(o) != nil {
+						out.Fail(fmt.Sprintf("C36|%s|second-fetch:%s|missing-object:own|%s", cfgName, sigKind, why), "client ref %s: its own object %s is gone", n, o)
+						return
+					}
+				}
+				if priorTip.IsZero() {
+					continue
+				}
+				h = priorTip
+			}
 			dm := dag2
 			if _, known := dag2.Objects[h]; !known {
 				// (a tag object of the server's earlier state)
@@ -500,7 +1113,7 @@ func execPlan(t *testing.T, pa any) (out core.Outcome) {
 			}
 			for _, o := range sortedClosure(dm, h, stop2) {
 				if v2.HasEncodedObject(o) != nil {
-					out.Fail(fmt.Sprintf("C36|%s|second-fetch:%s|missing-object:%s|%s", cfgName, kind, dm.Objects[o], why), "after the follow-up fetch of %v (depth %d; shallow roots %d -> %d) client ref %s = %s but object %s (%s) reachable from it is missing", specs, s2.Depth, shallowBefore, len(shallow2), n, h, o, dm.Objects[o])
+					out.Fail(fmt.Sprintf("C36|%s|second-fetch:%s|missing-object:%s|%s", cfgName, sigKind, dm.Objects[o], why), "after the follow-up fetch of %v (depth %d; shallow roots %d -> %d) client ref %s = %s but object %s (%s) reachable from it is missing", specs, s2.Depth, shallowBefore, len(shallow2), n, h, o, dm.Objects[o])
 					return
 				}
 			}
@@ -518,6 +1131,12 @@ func execPlan(t *testing.T, pa any) (out core.Outcome) {
 				return
 			}
 			out.Probe("second-fetch:" + kind)
+			if sigKind != kind {
+				out.Probe("second-fetch:other-protocol")
+				if shallowBefore > 0 {
+					out.Probe("second-fetch:other-protocol+shallow-client")
+				}
+			}
 			if len(shallow2) != shallowBefore {
 				out.Probe("second-fetch:boundary-moved")
 			}
@@ -535,6 +1154,9 @@ func execPlan(t *testing.T, pa any) (out core.Outcome) {
 			// failed write, or a server command whose peer went away). That is a
 			// leak, not non-termination of the fetch: counted, not judged.
 			out.Probe("goroutines-left-blocked-after-return")
+			if isHTTP {
+				out.Probe("goroutines-left-blocked-after-return:http")
+			}
 		case strings.Contains(msg, "deadlock"):
 			out.Signature, out.Message = "", ""
 			out.Fail("C36|"+cfgName+"|deadlock", "client and server are both blocked (simulated streams, capacities %s): the operation does not terminate", capClass(p))
@@ -604,16 +1226,24 @@ func TestCheck(t *testing.T) {
 	core.Main(t, core.Check{
 		ID:    "C36",
 		Level: "exploration",
-		Rule: "plan = server DAG (1-14 commits quick / 1-40 thorough, merge rate, chain bias, 1-4 branches, 0-4 tags incl. annotated tags on trees and blobs, committer clock skew) x client prior state (empty / prefix of the history / prefix + stale remote-tracking ref) x fetch|clone x tag mode x depth x prune x protocol v0/v1/v2 x optional follow-up fetch on the same client (one branch or all, own depth, after the server gained 0-3 commits) x per-connection stream behaviour (buffer capacity 1 B..unbounded, segmentation of every Write, optional cut after N bytes in either direction); " +
-			"non-trivial = some Write was delivered in several segments, a writer blocked on a full buffer, or a cut fired",
+		Rule: "plan = server DAG (1-14 commits quick / 1-40 thorough, merge rate, chain bias, 1-4 branches, 0-4 tags incl. annotated tags on trees and blobs, committer clock skew) x client prior state (empty / prefix of the history / prefix + stale remote-tracking ref; optionally 1-2 commits of its own, over HTTP up to 40) x fetch|clone x tag mode x depth x prune x protocol v0/v1/v2 x optional follow-up fetch on the same client (one branch or all, own depth, after the server gained 0-3 commits and optionally a merge of an old commit, optionally speaking another protocol version than the first operation) " +
+			"x transport: stateful stream (2/3 of the plans; one connection per operation) or smart HTTP stateless RPC (1/3; real HTTP client and backend.Backend, one simulated connection per request/response round; a quarter of the HTTP fetches have 17-56 commits in common or a deep shallow clone so that negotiation takes 2-5 rounds) " +
+			"x per-connection stream behaviour (buffer capacity 1 B..unbounded, segmentation of every Write, optional cut after N bytes in either direction) x per-round HTTP events (transport error before any response byte, 4xx/5xx from an intermediary, redirect of the discovery or of a later request) x optional retry of a fetch that failed under a fault over a fault-free transport; " +
+			"non-trivial = some Write was delivered in several segments, a writer blocked on a full buffer, or a fault fired",
 		Assumptions: []string{"both peers are go-git (real git as a peer is not simulated)", "streams are reliable ordered byte streams (TCP/pipe model): no loss, duplication or reordering inside a stream",
-			"under tag-following the set of auto-followed tags is not judged, only that created tags equal the server's and are complete", "the shallow boundary is compared with a BFS model for clones/fetches into an empty client"},
-		Real:    []string{"Remote.Fetch", "git.Clone", "transport negotiation", "packfile encoder/parser", "transport.UploadPack v0/v1/v2", "storage/filesystem on both sides"},
-		Stub:    []string{"network (simnet streams, Kahn-deterministic segmentation)", "both disks (simfs)", "clock (synctest)"},
-		Runs:    map[string]int{"quick": 20000, "thorough": 600000},
+			"under tag-following the set of auto-followed tags is not judged, only that created tags equal the server's and are complete", "the shallow boundary is compared with a BFS model for clones/fetches into an empty client",
+			"HTTP: of net/http's server only the request-body contract is modelled (Close discards the rest of the body, Read after Close fails; validated once against a real net/http server); a cut response body surfaces as a read error (chunked / Content-Length framing), never as a clean EOF; a cut of the request direction loses the whole round",
+			"HTTP: FetchRequest.Haves is sorted before the real HTTP session sees it (go-git collects the haves from a map; under stateless RPC their order decides the composition of every round); TLS, authentication challenges, proxies, gzip request bodies and the dumb protocol are not explored",
+			"number of rounds and bytes (efficiency of negotiation) is not judged; goroutines left blocked after the call returned are counted, not judged"},
+		Real: []string{"Remote.Fetch", "git.Clone", "transport.NegotiatePack / FetchPack (stateful and stateless)", "internal/transport.FetchV2 + LsRefs", "plumbing/transport/http: Handshake (info/refs discovery, smart reply, version detection), smartPackSession, httpRequester/httpNegotiator (one POST per round), redirect policy, status handling",
+			"net/http.Client (redirects)", "backend.Backend.ServeHTTP (routing, content types, info/refs advertisement with service header, stateless-rpc UploadPack on a fresh Storage per request)", "packfile encoder/parser", "transport.UploadPack v0/v1/v2", "storage/filesystem on both sides"},
+		Stub:    []string{"network (simnet streams, Kahn-deterministic segmentation; simnet.HTTP RoundTripper + ResponseWriter instead of sockets and net/http's server)", "both disks (simfs)", "clock (synctest)"},
+		Runs:    map[string]int{"quick": 16000, "thorough": 480000},
 		NewPlan: func() any { return &Plan{} },
 		Gen:     genPlan,
 		Exec:    execPlan,
-		RequiredProbes: []string{"ok:fetch", "ok:clone", "split-writes", "writer-blocked-on-full-buffer", "failed-after-cut", "incremental-fetch", "shallow-fetch", "pruned", "second-fetch:one-branch+shallow-client", "second-fetch:all-branches+shallow-client", "second-fetch:one-branch", "second-fetch:boundary-moved"},
+		RequiredProbes: []string{"ok:fetch", "ok:clone", "split-writes", "writer-blocked-on-full-buffer", "failed-after-cut", "incremental-fetch", "shallow-fetch", "pruned", "second-fetch:one-branch+shallow-client", "second-fetch:all-branches+shallow-client", "second-fetch:one-branch", "second-fetch:boundary-moved",
+			"http-ok:fetch", "http-ok:clone", "http-negotiation-rounds>=2", "http-negotiation-rounds>=3", "http-negotiation-rounds>=2:v0", "http-negotiation-rounds>=2:v1", "http-negotiation-rounds>=2:v2", "http-round-cut", "http-round-cut:round>=2", "http-shallow-over-stateless", "http-shallow-client-follow-up:rounds>=2",
+			"http-v2-ls-refs+fetch", "http-failed-after-fault", "http-retry-ok", "http-discovery-redirect-followed", "http-fetch-with-own-history", "second-fetch:other-protocol+shallow-client"},
 	})
 }
